@@ -1367,6 +1367,51 @@ impl<'a, C: MlsConfig> Hist<'a, C> {
             }
         }
         self.rep.cover.insert(format!("commit:path={}:depth={}:joiners={}", has_path as u8, depth, joiners.len().min(3)));
+        // C08, incremental tree-hash cache: the partition of (previous cache ++ current cache) by equal hash bytes must be the
+        // partition by equal hash TERMS of the model's from-scratch tree hashes of the two trees (a stale entry would be equal to
+        // an old hash where the model has a new term, a needlessly recomputed one is fine)
+        let nh = crate::anyprov::cs_for(self.w.members[c].setup.suite).kdf_extract_size();
+        for &i in &now {
+            let comps = self.w.components(i);
+            let Some((_, bytes)) = comps.iter().find(|(k, _)| k == "tree_hash_cache") else { continue };
+            let tree_now = tree_str(&self.w.anodes(i));
+            let n_nodes = self.w.anodes(i).len();
+            let name = self.w.members[i].setup.name.clone();
+            // one entry per node of the full tree over the padded leaf count
+            let padded = 2 * ((n_nodes + 1) / 2).next_power_of_two() - 1;
+            if bytes.len() != nh * padded {
+                self.fail("C08", format!("tree-hash cache of {name} holds {} bytes for {n_nodes} nodes ({padded} expected entries) after m{cmi}", bytes.len()));
+                self.w.hash_caches.remove(&i);
+                continue;
+            }
+            let cache_now: Vec<Vec<u8>> = bytes.chunks(nh).map(|c| c.to_vec()).collect();
+            if let Some((tree_prev, cache_prev)) = self.w.hash_caches.get(&i) {
+                let mut seen: Vec<&Vec<u8>> = vec![];
+                let mut ids: Vec<Vec<usize>> = vec![vec![], vec![]];
+                for (k, cache) in [cache_prev, &cache_now].into_iter().enumerate() {
+                    for h in cache {
+                        let id = match seen.iter().position(|x| *x == h) {
+                            Some(p) => p,
+                            None => {
+                                seen.push(h);
+                                seen.len() - 1
+                            }
+                        };
+                        ids[k].push(id);
+                    }
+                }
+                let ans = ids.iter().map(|v| v.iter().map(|x| x.to_string()).collect::<Vec<_>>().join(",")).collect::<Vec<_>>().join(" ");
+                if let Some(qa) = self.tree_qa.as_deref_mut() {
+                    qa.put(&format!("thashspec {tree_prev} {tree_now}"), &ans);
+                }
+            }
+            self.w.hash_caches.insert(i, (tree_now, cache_now));
+        }
+        // members that left keep no entry
+        let gone: Vec<usize> = self.w.hash_caches.keys().copied().filter(|k| !now.contains(k)).collect();
+        for k in gone {
+            self.w.hash_caches.remove(&k);
+        }
     }
 
     pub fn run(&mut self) {
